@@ -28,7 +28,7 @@ import (
 //	*Map        map
 //	*Closure / *ssa.Function / *ssa.Builtin   func values (nil func = (*ssa.Function)(nil))
 //	Tuple       multiple results
-//	*Chan       channel (only nil-ness and identity are modelled)
+//	*Chan       channel (buffered, single goroutine: see Chan)
 //	UnsafePtr   unsafe.Pointer carrying the typed pointer it was made from
 type Value interface{}
 
@@ -50,7 +50,14 @@ type Closure struct {
 	Env []Value
 }
 
-type Chan struct{ id int }
+// Chan is a buffered channel used by one goroutine: sends fill the buffer,
+// receives drain it; an operation that would block is an unsupported site.
+type Chan struct {
+	id       int
+	capacity int
+	buf      []Value
+	closed   bool
+}
 
 type UnsafePtr struct {
 	P    Value      // the original pointer value (*Value) or nil
